@@ -22,8 +22,9 @@ import (
 var FxPackages = [][2]string{
 	{"fx/pk", "pk"}, {"fx/pk2", "pk2"}, {"fx/a/pkg", "pkg"}, {"fx/b/pkg", "pkg"}, {"fx/p-k.g", "pkg"},
 	{"fx/ab", "ab"}, {"fx/a", "a"}, {"fx/fmt", "fmt"}, {"fx/os", "os"}, {"fx/errors", "errors"},
-	{"fx/ab/ab", "ab"},    // an alias followed by a sub-path that spells the alias again
-	{"fx/pk2/sub", "sub"}, // a sub-package of a package that alias tables name with a quoted path
+	{"fx/ab/ab", "ab"},                                               // an alias followed by a sub-path that spells the alias again
+	{"fx/pk2/sub", "sub"},                                            // a sub-package of a package that alias tables name with a quoted path
+	{"fx/3rd/lib", "lib"}, {"fx/x/2go", "go2"}, {"fx/_u/v2.x", "vx"}, // path segments that start with a digit or an underscore
 }
 
 // FxManyPackages: fourteen more copies of the fixture package, for configurations with more distinct import paths
